@@ -81,11 +81,53 @@ func init() {
 // ---- harness-controlled clock, timers and condition variables ----
 
 type timerRec struct {
-	deadline value // int64 seconds or nanoseconds on the harness clock (same unit as SetNow)
-	fn       value
+	deadline value // nanoseconds on the harness clock
+	fn       value  // AfterFunc callback (nil for channel timers)
+	ch       *ochan // channel timers (NewTimer): the current time is sent on C
 	stopped  bool
 	fired    bool
 	ptr      *value
+}
+
+func nowTimeValue() value {
+	ns := clockNanos()
+	sec := binop(token.QUO, nil, ns, int64(1_000_000_000))
+	nsec := binop(token.REM, nil, ns, int64(1_000_000_000))
+	ext := binop(token.ADD, nil, sec, int64(unixToInternalSec))
+	wall := conv(types.Typ[types.Uint64], types.Typ[types.Int64], nsec)
+	return structure{wall, ext, (*value)(nil)}
+}
+
+func (t *timerRec) fire(fr *frame) {
+	t.fired = true
+	if t.ch != nil {
+		if len(t.ch.buf) == 0 {
+			t.ch.buf = append(t.ch.buf, nowTimeValue())
+		}
+		return
+	}
+	call(fr.i, fr, 0, t.fn, nil)
+}
+
+func timerByPtr(p *value) *timerRec {
+	for _, t := range cur.timers {
+		if t.ptr == p {
+			return t
+		}
+	}
+	return nil
+}
+
+func durationDue(d value) bool {
+	// d <= 0 ?
+	r := binop(token.LEQ, nil, d, int64(0))
+	switch x := r.(type) {
+	case bool:
+		return x
+	case sv:
+		return cur.branch(x.t)
+	}
+	return false
 }
 
 const unixToInternalSec = 62135596800
@@ -117,9 +159,8 @@ func init() {
 				} else if dsv, ok := due.(sv); ok && !cur.branch(dsv.t) {
 					continue
 				}
-				t.fired = true
 				n++
-				call(fr.i, fr, 0, t.fn, nil)
+				t.fire(fr)
 			}
 			return n
 		},
@@ -149,12 +190,14 @@ func init() {
 		},
 		"time.Now": func(fr *frame, args []value) value {
 			// Time{wall: nsec, ext: sec + unixToInternal, loc: nil}; clock is in nanoseconds
-			ns := clockNanos()
-			sec := binop(token.QUO, nil, ns, int64(1_000_000_000))
-			nsec := binop(token.REM, nil, ns, int64(1_000_000_000))
-			ext := binop(token.ADD, nil, sec, int64(unixToInternalSec))
-			wall := conv(types.Typ[types.Uint64], types.Typ[types.Int64], nsec)
-			return structure{wall, ext, (*value)(nil)}
+			return nowTimeValue()
+		},
+		"time.Since": func(fr *frame, args []value) value {
+			return externals["(time.Time).Sub"](fr, []value{nowTimeValue(), args[0]})
+		},
+		"math/rand.Intn": func(fr *frame, args []value) value {
+			n := int(asInt64(args[0]))
+			return cur.choice("rand", n)
 		},
 		"time.AfterFunc": func(fr *frame, args []value) value {
 			dl := binop(token.ADD, nil, clockNanos(), args[0])
@@ -163,6 +206,32 @@ func init() {
 			p := &cell
 			cur.timers = append(cur.timers, &timerRec{deadline: dl, fn: args[1], ptr: p})
 			return p
+		},
+		"time.NewTimer": func(fr *frame, args []value) value {
+			tt := fr.i.prog.ImportedPackage("time").Type("Timer").Type()
+			cell := zero(tt)
+			ch := &ochan{cap: 1}
+			cell.(structure)[0] = ch
+			p := &cell
+			t := &timerRec{deadline: binop(token.ADD, nil, clockNanos(), args[0]), ch: ch, ptr: p}
+			cur.timers = append(cur.timers, t)
+			if durationDue(args[0]) {
+				t.fire(fr)
+			}
+			return p
+		},
+		"(*time.Timer).Reset": func(fr *frame, args []value) value {
+			t := timerByPtr(args[0].(*value))
+			if t == nil {
+				unsupported("Reset of an unknown timer")
+			}
+			was := !t.stopped && !t.fired
+			t.stopped, t.fired = false, false
+			t.deadline = binop(token.ADD, nil, clockNanos(), args[1])
+			if durationDue(args[1]) {
+				t.fire(fr)
+			}
+			return was
 		},
 		"(*time.Timer).Stop": func(fr *frame, args []value) value {
 			p := args[0].(*value)
